@@ -329,6 +329,7 @@ func (p *c31) Run(payload any) mon.Result {
 		return mon.Result{Verdict: mon.OutOfDomain, Reason: "finished-before-cancel", Detail: fmt.Sprintf("%s\nerr=%v stdout=%q", c.Src, got.err, clip(out.String(), 200))}
 	}
 	cancelOnce()
+	cancelReturned := time.Now()
 	t0 := time.Unix(0, cancelAt.Load())
 	res.Evals = 1
 	for _, t := range c.Tags {
@@ -354,6 +355,10 @@ func (p *c31) Run(payload any) mon.Result {
 		lat := got.at.Sub(t0)
 		if got.pan != nil {
 			return mon.Result{Verdict: mon.OutOfDomain, Reason: "panic(C28)", Detail: fmt.Sprint(got.pan)}
+		}
+		if got.err == nil && !got.at.After(cancelReturned) {
+			// Run came back while cancel() was still being called: it had finished by itself
+			return mon.Result{Verdict: mon.OutOfDomain, Reason: "finished-before-cancel", Detail: c.Src}
 		}
 		if got.err == nil {
 			res.Fail("no-error-after-cancel", fmt.Sprintf("program (cancelled %v after start, hook %d):\n%s\nRun returned nil %v after the cancel although the program cannot finish by itself; stdout=%q", time.Duration(c.CancelUS)*time.Microsecond, c.AtHook, c.Src, lat, clip(out.String(), 200)))
